@@ -145,7 +145,8 @@ const MAX_INCLUDE_DEPTH: u32 = 200;
 
 /// Manage files that are returned from the external include handler
 struct FileLoader<'a> {
-    file_name_remap: HashMap<String, FileId>,
+    file_name_remap: HashMap<(String, String), FileId>,
+    real_name_remap: HashMap<String, FileId>,
     pragma_once_files: HashSet<FileId>,
     include_depth: u32,
     source_manager: &'a mut SourceManager,
@@ -165,6 +166,7 @@ impl<'a> FileLoader<'a> {
     ) -> Self {
         FileLoader {
             file_name_remap: HashMap::new(),
+            real_name_remap: HashMap::new(),
             pragma_once_files: HashSet::new(),
             include_depth: 0,
             source_manager,
@@ -178,23 +180,34 @@ impl<'a> FileLoader<'a> {
         parent_file: Option<FileId>,
     ) -> Result<InputFile, IncludeError> {
         let parent_name = match parent_file {
-            Some(id) => self.source_manager.get_file_name(id),
-            None => "",
+            Some(id) => self.source_manager.get_file_name(id).to_string(),
+            None => String::new(),
         };
 
-        let id = match self.file_name_remap.get(file_name) {
+        // The include handler may resolve the same name differently depending on the file it was included from
+        let key = (file_name.to_string(), parent_name);
+
+        let id = match self.file_name_remap.get(&key) {
             Some(id) => *id,
             None => {
                 // Load the file
-                let file_data = self.include_handler.load(file_name, parent_name)?;
+                let file_data = self.include_handler.load(file_name, &key.1)?;
 
-                // Add it to the source manager
-                let id = self
-                    .source_manager
-                    .add_file(FileName(file_data.real_name), file_data.contents);
+                // The same file may be reached with different names - identify it by the name it was resolved to
+                let id = match self.real_name_remap.get(&file_data.real_name) {
+                    Some(id) => *id,
+                    None => {
+                        // Add it to the source manager
+                        let id = self
+                            .source_manager
+                            .add_file(FileName(file_data.real_name.clone()), file_data.contents);
+                        self.real_name_remap.insert(file_data.real_name, id);
+                        id
+                    }
+                };
 
                 // Remember the file id
-                self.file_name_remap.insert(file_name.to_string(), id);
+                self.file_name_remap.insert(key, id);
 
                 id
             }
